@@ -225,13 +225,13 @@ def check_mirror(out, facts, S, D):
                             good = False
                             msg = 'tag %d is written for %s but decoded as %s' % (tag, encl[tag], lab)
         if good and st[0] == 'prim' and st[1] == 'bool' and v is not None:
-            mv = strip(v)
+            # the value produced for the tag bytes 0 and 1, by evaluating the decoder's conditions (match or if-chain alike)
+            rbs = [e for e in events(t) if e[0] == 'rb']
             labs = {}
-            if isinstance(mv, tuple) and mv[0] == 'matchval':
-                for d, x in mv[2]:
-                    if isinstance(d, tuple) and d[2] and len(d[2]) == 1:
-                        x = strip(x)
-                        labs[d[2][0][0]] = value_label(strip(x[1])) if isinstance(x, tuple) and x[0] == 'res' else '?'
+            if rbs:
+                for b in (0, 1):
+                    sel = select_value(v, lambda x, b=b: b if strip(x) == ('byte', rbs[0][1]) else None)
+                    labs[b] = value_label(sel) if sel is not None else '?'
             if labs.get(0) != 'false' or labs.get(1) != 'true':
                 good, msg = False, 'bool tags decode as %s (0 must be false, 1 true: the encoder writes `self as u8`)' % labs
         # transparent data flow
